@@ -389,7 +389,8 @@ def probe(d: Daemon, mode: str, exp: dict[str, Any], status_keys: list[str], pid
                 d.wait_exit(10)  # it announced its own death while answering the probe
             break
         p["barrier_error"] = str(b["error"])[:300]
-        if d.wait_exit(10):
+        p.setdefault("barrier_failures", []).append(p["barrier_error"])
+        if d.wait_exit(10 if attempts else 5):
             break
         attempts += 1
         if attempts >= 3:
